@@ -260,7 +260,7 @@ def gn_cases(rnd, n):
         opts = []
         for o in rnd.sample(sorted(GN_OPTS), rnd.randint(0, 5)):
             kind = GN_OPTS[o][0]
-            v = rnd.choice(["true", "false"]) if kind == "bool" else str(rnd.choice([1, 2, 7, 50, 1234])) if kind == "num" else rnd.choice(["2.5", "1.25", "3.5"])
+            v = rnd.choice(["true", "false"]) if kind == "bool" else str(rnd.choice([1, 2, 3, 7, 10, 50, 100, 1234])) if kind == "num" else rnd.choice(["2.5", "1.25", "3.5", "1.0", "0.5", "1.01", "10.0", "0.001"])
             opts.append((o, v))
         key = "gn%d" % i
         addr = "https://example.com/metrics"
